@@ -310,7 +310,7 @@ pub fn execute(scn: &PairScn, ctx: &mut Ctx) {
             let mut rd = Reader::new(sr, dr);
             let mut out = Vec::new();
             let other_is_point = ty != 1;
-            for k in [1usize, n - 1, 0, n / 2] {
+            for k in [1usize, n - 1, 0, n / 2, n - n / 4] {
                 if k > 0 {
                     // a typed pair iteration of another type fails at entry k-1 ...
                     rd.seek(k - 1)?;
@@ -749,9 +749,11 @@ pub fn generate(r: &mut crate::prng::Rng) -> PairScn {
 pub fn large_unit(unit: u64, ctx: &mut Ctx, ctl: &mut UnitCtl) {
     let (n, ty) = [(1025usize, 1), (4097, 21), (6000, 3)][(unit % 3) as usize];
     let scn = PairScn {
-        shapes: vec![grid_spec(ty, 1, 2, 3)],
+        // seven different shapes in rotation (of different sizes where the type allows it): a pair
+        // that is read from the wrong index entry is seen as such
+        shapes: (0..7).map(|i| grid_spec(ty, 1, 2 + i % 3, 3 + i)).collect(),
         other: grid_spec(if ty == 1 { 3 } else { 1 }, 1, 2, 9),
-        calls: (0..n).map(|_| PCall::Good(0)).collect(),
+        calls: (0..n).map(|i| PCall::Good((i % 7) as u8)).collect(),
         ending_bulk: vec![],
         stack: StackCfg::Buf(8192),
         path: unit % 3 == 1,
